@@ -178,6 +178,9 @@ class QuantileInterval(BaseInterval):
 
         # Filter out invalid values (inf, nan)
         values = values[np.isfinite(values)]
+        if np.issubdtype(values.dtype, np.integer):
+            # np.quantile interpolates in the input dtype, which wraps for integers
+            values = values.astype(np.float64)
         vmin, vmax = np.quantile(values, (self.lower_quantile, self.upper_quantile))  # type: ignore
 
         return float(vmin), float(vmax)
